@@ -1188,7 +1188,7 @@ def c11_packing_group(mir, ctx):
     `String::push` is an event; to_b64 / from_b64 are inlined.  Each function is pinned, token by
     token, to a reference packing written as SMT terms; the round-trip and injectivity statements
     are then decided by the solver over the two references."""
-    N = 3
+    N = 3 + TIER["extra"]
     enc_fn, dec_fn = mir.find(r"^encode$"), mir.find(r"^decode$")
     ssrc = open(os.path.join(REPO, "src/internal/streamname.rs")).read()
     mp = re.search(r"const TABLE_PREFIX: char = '\\u\{([0-9a-fA-F]+)\}'", ssrc)
@@ -1907,7 +1907,7 @@ def c07_insert_gate_group(mir, ctx):
         return None
 
     ex = M.Exec(mir, ctx, models=models, stop_at=stop_at, havoc_unknown=True)
-    ex.max_revisit = 3
+    ex.max_revisit = deeper(3)
     from .mir_protocol import struct_fields
     qsrc = open(os.path.join(REPO, "src/internal/query.rs")).read()
     ifields = struct_fields(qsrc, "Insert")
@@ -2176,7 +2176,7 @@ def c12_join_group(mir, ctx):
             (r"as Iterator>::map::<", m_desc("map(%s)", 1)), (r"as Iterator>::collect::<Vec<ValueRef>>$", m_desc("vec(%s)", 1)),
         ] + it_models
         ex = M.Exec(mir, ctx, models=models, havoc_unknown=True, max_paths=200000)
-        ex.max_revisit = 3
+        ex.max_revisit = deeper(3)
         ex.no_inline = [r"Select::exec", r"Rows::", r"Table::", r"Row::new$", r"Expr::eval$", r"StringPool::", r"closure", r"Column::"]
         join = EnumV(variant=jv.index(vname), fields=[OpaqueV("lhs"), OpaqueV("rhs"), OpaqueV("on")])
         outs = ex.run(fn, [join, OpaqueV("comp"), OpaqueV("pool"), OpaqueV("tables")])
@@ -2336,7 +2336,7 @@ def c12_select_gate_group(mir, ctx):
     ] + it_models
     ex = M.Exec(mir, ctx, models=models, havoc_unknown=True, max_paths=100000,
                 stop_at=lambda f, bb, term: "done" if re.search(r"Rows::<'_>::new\(", term) else None)
-    ex.max_revisit = 3
+    ex.max_revisit = deeper(3)
     ex.no_inline = [r"Join::exec", r"::exec::<", r"Rows::", r"Table::(new|name|columns|long_string_refs)$", r"Row::new$", r"Expr::eval$", r"closure", r"Column::"]
     qsrc = open(os.path.join(REPO, "src/internal/query.rs")).read()
     sfields = struct_fields(qsrc, "Select")
@@ -2532,7 +2532,7 @@ def c05_update_group(mir, ctx):
         return None
 
     ex = M.Exec(mir, ctx, models=models, stop_at=stop_at, havoc_unknown=True, max_paths=400000)
-    ex.max_revisit = 3
+    ex.max_revisit = deeper(3)
     ex.no_inline = [r"Table::(stream_name|name|columns|long_string_refs|read_rows)$", r"Expr::(eval|column_names)$", r"Row::new$",
                     r"ValueRef::to_value$", r"closure"]
     qsrc = open(os.path.join(REPO, "src/internal/query.rs")).read()
@@ -2647,7 +2647,7 @@ def c05_insert_group(mir, ctx):
         (r"Table::write_rows::<", m_ev("write", lambda: EnumV(variant=0, fields=[TupleV([])]))),
     ] + it_models
     ex = M.Exec(mir, ctx, models=models, havoc_unknown=True, max_paths=400000)
-    ex.max_revisit = 3
+    ex.max_revisit = deeper(3)
     ex.no_inline = [r"Table::(stream_name|name|columns|long_string_refs|read_rows|primary_key_indices|write_rows)", r"ValueRef::to_value$", r"closure"]
     qsrc = open(os.path.join(REPO, "src/internal/query.rs")).read()
     ifields = struct_fields(qsrc, "Insert")
@@ -2932,7 +2932,7 @@ def c03_update_kernel_group(mir, ctx):
         return None
 
     ex = M.Exec(mir, ctx, models=models, stop_at=stop_at, havoc_unknown=True, max_paths=400000)
-    ex.max_revisit = 3
+    ex.max_revisit = deeper(3)
     ex.no_inline = [r"Table::(stream_name|name|columns|long_string_refs|read_rows|primary_key_indices)$", r"Expr::column_names$", r"ValueRef::to_value$", r"closure"]
     qsrc = open(os.path.join(REPO, "src/internal/query.rs")).read()
     ex.new_obj("update", [OpaqueV("update." + f) for f in struct_fields(qsrc, "Update")])
@@ -3745,8 +3745,16 @@ def native_confirm_c18(vals, work):
     return None
 
 
+TIER = {"extra": 0}      # thorough tier: the executor-level laws unroll one step further (3 rows / names instead of 2)
+
+
+def deeper(n, groups=None):
+    return n + TIER["extra"]
+
+
 def run_property(pid, tier, work, known_by_id, replay_dir):
     t0 = time.time()
+    TIER["extra"] = 1 if tier == "thorough" else 0
     mir, mir_path = _load_mir(work)
     dump_s = time.time() - t0
     ctx = M.Ctx()
@@ -3783,7 +3791,9 @@ def run_property(pid, tier, work, known_by_id, replay_dir):
         rec = {
             "engine": "mir-smt", "query": "%s.%s" % (pid, g.name), "status": "PASS", "smt_queries": len(g.queries) + len(g.witness),
             "functions": g.functions, "note": g.note, "witness_ok": wit_any,
-            "bounds": "full machine-integer ranges (mathematical integers + range side conditions); structural bound: the named loop-free functions and the listed std models",
+            "bounds": "full machine-integer ranges (mathematical integers + range side conditions); structural bound: the named functions with "
+                      "loops unrolled as stated in the law's note" + (" -- THOROUGH tier: one unrolling step more than stated (e.g. 3 rows / names / characters "
+                                                                      "where the note says 2; names of <= 4 characters for C11)" if TIER["extra"] else ""),
             "symbolic": "all integer inputs of the encoded functions",
             "solver_time_s": round(sum(times.values()), 2), "verification_time_s": round(sum(times.values()), 2),
             "solvers": sorted(times.keys()),
